@@ -7,7 +7,7 @@ COMMON_TB = [
 ]
 
 NOT_CLAIMED = {}
-FACT_PROPS = ["C07", "C11", "C12", "C13", "C15", "C16", "C20"]
+FACT_PROPS = ["C03", "C06", "C07", "C11", "C12", "C13", "C15", "C16", "C20"]
 
 PROPS = {
     "C17": dict(
@@ -81,7 +81,7 @@ PROPS = {
         engine="step-harness",
     ),
     "C08": dict(
-        lean_modules=["Swim.Lemmas.Merge", "Swim.Props.C08", 'Swim.Model.Cluster', 'Swim.Props.Cluster', 'Swim.Props.ClusterG', 'Swim.Props.C08Cluster'],
+        lean_modules=["Swim.Lemmas.Merge", "Swim.Props.C08", 'Swim.Model.Cluster', 'Swim.Props.Cluster', 'Swim.Props.ClusterG', 'Swim.Props.C08Cluster', 'Swim.Props.Projection', 'Swim.Props.C03Cluster', 'Swim.Props.C04Cluster', 'Swim.Props.C08Final'],
         tests="^TestC08(Sim)?$",
         shards_quick=8,
         rule='the C01 table (address same/other/disallowed/v4-mapped x prior state x aged x reclaim) judged by the hijack/reuse/departure predicate, plus random histories with Leave; non-trivial/distinct as C01',
@@ -89,7 +89,7 @@ PROPS = {
                                   "time abstracted to recent/long-ago classes; Go monotonic clock gives distinct change stamps",
                                   "net.IPNet.Contains as the allow-list predicate; go-msgpack for decoding queued broadcasts in the hook"],
         assumptions=["calls are serialised by nodeLock (no concurrency in the model)", "incarnations below 2^32-1 where stated", "cluster-level theorems: restart-free histories of the cluster model (network = monotone pool of claims delivered in any order/multiplicity, push/pull entry-wise, timing and target selection free); fewer than 2^32 steps"],
-        level_text="Proof (partial): conflict keeps the address and fires the callback, reclaim rules, departure recorded as left, no resurrection by alive claims no newer than the departure; cluster level (C08_cluster_left_is_left): in every history of the cluster model a member is recorded as left by anybody, or announced as departed on the network, only if it called Leave - Lean theorems over the model tied by table + histories. The 'Leave returned nil so a peer was sent the departure' clause is covered by the simulator leg.",
+        level_text="Proof (partial): conflict keeps the address and fires the callback, reclaim rules, departure recorded as left, no resurrection by alive claims no newer than the departure; cluster level (C08_cluster_left_is_left): in every history of the cluster model a member is recorded as left by anybody, or announced as departed on the network, only if it called Leave - C08_cluster_leave_final: once a member has left and a peer holds it as left at the member's own incarnation, every further cluster history without the reaper at that peer keeps it left (no alive claim in the system is newer than the departure, and all carry the member's own address); C08_cluster_leaver_stays_gone: the leaver never holds itself alive again - Lean theorems over the model tied by table + histories. The 'Leave returned nil so a peer was sent the departure' clause is covered by the simulator leg.",
         level_note='Trusted: as C01. Known findings: second Leave after a timed-out Leave returns nil without sending; tombstone expiry allows resurrection (protocol design).',
         engine="step-harness",
     ),
@@ -179,7 +179,7 @@ PROPS = {
         engine="codec-harness",
     ),
     "C06": dict(
-        lean_modules=["Swim.Model.Susp", "Swim.Lemmas.Merge", "Swim.Props.C06"],
+        lean_modules=["Swim.Model.Susp", "Swim.Lemmas.Merge", "Swim.Props.C06", 'Swim.Gen.Facts', 'Swim.Props.C06Facts', 'Swim.Props.C06History', 'Swim.Model.Cluster', 'Swim.Props.Cluster', 'Swim.Props.Projection', 'Swim.Props.C06Cluster'],
         tests="^TestC06$",
         rule=("(susp) timed confirmation scripts on the real suspicion timer in virtual time (testing/synctest): k in {0,1,2,3,4,6}, minimum timeouts "
               "incl. values that are not whole milliseconds, max = 1,2,6 x min, up to 8 confirmations from 7 names incl. the accuser and duplicates at "
@@ -217,7 +217,7 @@ PROPS = {
         engine="step-harness+codec-harness",
     ),
     "C19": dict(
-        lean_modules=["Swim.Model.Acks", "Swim.Props.C19"],
+        lean_modules=["Swim.Model.Acks", "Swim.Props.C19", 'Swim.Model.Handlers', 'Swim.Props.C19Table'],
         tests="^TestC19$",
         rule=("virtual-time scripts (testing/synctest) on a real node with a capturing transport: (probe) probeNode against a target with 0-4 relays "
               "of mixed protocol versions, IndirectChecks 0/1/3, initial health score 0-3, AwarenessMaxMultiplier 1/2/8, TCP fallback off / refused / "
@@ -255,7 +255,7 @@ PROPS = {
         engine="codec-harness+fact-extractor",
     ),
     "C03": dict(
-        lean_modules=['Swim.Model.Probe', 'Swim.Model.Susp', 'Swim.Lemmas.Merge', 'Swim.Props.C06', 'Swim.Props.C03', 'Swim.Model.Cluster', 'Swim.Props.Cluster', 'Swim.Props.ClusterG', 'Swim.Props.Projection', 'Swim.Props.C03Cluster'],
+        lean_modules=['Swim.Model.Probe', 'Swim.Model.Susp', 'Swim.Lemmas.Merge', 'Swim.Props.C06', 'Swim.Props.C03', 'Swim.Model.Cluster', 'Swim.Props.Cluster', 'Swim.Props.ClusterG', 'Swim.Props.Projection', 'Swim.Props.C03Cluster', 'Swim.Gen.Facts', 'Swim.Props.C06Facts'],
         tests="^TestC03$",
         timeout_quick=400,
         shards_quick=4,
@@ -297,7 +297,7 @@ PROPS = {
         engine="cluster-simulator",
     ),
     "C20": dict(
-        lean_modules=['Swim.Model.Merge', 'Swim.Props.C20'],
+        lean_modules=['Swim.Model.Merge', 'Swim.Props.C20', 'Swim.Model.Lifecycle'],
         tests="^TestC20$",
         timeout_quick=400,
         shards_quick=4,
